@@ -741,10 +741,32 @@ pub fn c03(tier: Tier) -> i32 {
         let zero = TowerCfg { slots: 3, duration: 0, grace: 0, txindex: false };
         histories.push((zero, vec![Ev::Register(1), Ev::Register(2), e(), Ev::Register(1), e(), e()]));
     }
+    // penalties the node refuses and blobs that do not decrypt (the appointment is dropped: stored, judged, deleted are
+    // separate durable effects), on the block path and on the request path, alone and next to a good one
+    {
+        let addb = |u, k, b| Ev::Add { user: u, disp: k, blob: b, tsd: 42 };
+        let e = || Ev::MineP(crate::world::MineSel::Empty);
+        let d1 = || Ev::MineP(crate::world::MineSel::Txs(vec![crate::sim::TxName::D(1)]));
+        for bad in [Blob::Bad, Blob::Raw(40)] {
+            histories.push((cfg, vec![Ev::Register(1), addb(1, 1, bad), d1(), e()]));
+            histories.push((cfg, vec![Ev::Register(1), d1(), addb(1, 1, bad), e(), addb(1, 1, Blob::Valid)]));
+            histories.push((cfg, vec![Ev::Register(1), Ev::Register(2), addb(1, 1, Blob::Valid), addb(2, 1, bad), d1(), e()]));
+        }
+    }
     // Advance(100) completion histories (refund transaction) are added explicitly.
     histories.push((cfg, {
         let mut h = crate::checks_t::seed("S4");
         h.push(Ev::AdvanceBulk(98));
+        h.push(Ev::MineP(crate::world::MineSel::Empty));
+        h.push(Ev::MineP(crate::world::MineSel::Empty));
+        h
+    }));
+    // ... and two trackers of one user completing in the same block (one refund transaction for both)
+    histories.push((cfg, {
+        // (seed S8 with its 97 single-block polls as one bulk poll: a macro event is not cut in the middle)
+        let mut h: Vec<Ev> = crate::checks_t::seed("S8").into_iter().map(|e| if let Ev::Advance(n) = e { Ev::AdvanceBulk(n) } else { e }).collect();
+        h.push(Ev::MineP(crate::world::MineSel::Empty));
+        h.push(Ev::MineP(crate::world::MineSel::Empty));
         h.push(Ev::MineP(crate::world::MineSel::Empty));
         h.push(Ev::MineP(crate::world::MineSel::Empty));
         h
